@@ -38,6 +38,8 @@ RAISES = Raises()
 
 
 class NotJson:
+    _not_json = True
+
     def __repr__(self):
         return 'NotJson'
 
